@@ -2,7 +2,7 @@
    line written by the Go harness) to the canonical text of the model's
    observable.  Used identically by the extracted OCaml driver and by the
    in-Coq vm_compute evaluation. *)
-From Lungo.Model Require Import Compare RunAccess ApiOps RunOplog RunSpec RunSort File.
+From Lungo.Model Require Import Compare RunAccess ApiOps RunOplog RunSpec RunSort File RunMatch.
 Open Scope string_scope.
 
 Definition bad : string := "BAD-CASE".
@@ -32,6 +32,8 @@ Definition runners : list (sexp -> option string) :=
   ; run_sort
   ; run_codec
   ; run_file
+  ; run_match
+  ; run_matchref
   ].
 
 Fixpoint first_some (rs : list (sexp -> option string)) (x : sexp) : string :=
